@@ -247,6 +247,20 @@ structure Imp where
   nextC : Nat
   deriving Repr, Inhabited
 
+/-- junction bookkeeping as an executable check: no junction attached to two nodes; the junction map
+    points to the live node carrying the junction; every carried junction has its entry; no junction
+    reported deleted is attached to a live node -/
+def jinvb (s : Imp) : Bool :=
+  s.t.nodes.all (fun n => s.t.nodes.all (fun m =>
+    n.junction.isNone || n.junction != m.junction || n.id == m.id)) &&
+  s.junctions.all (fun p => match s.t.node? p.2 with
+    | some n => n.junction == some p.1
+    | none => false) &&
+  s.t.nodes.all (fun n => match n.junction with
+    | some j => s.junctions.contains (j, n.id)
+    | none => true) &&
+  s.delJ.all (fun j => s.t.nodes.all (fun n => n.junction != some j))
+
 /-- the sequence `edge->disconnectEdge(); delete edge; target->spliceEdgesFrom(source); delete source;`
     that both rewrites use to contract the edge `e` between `target` and `source` -/
 def contract (t : HTree) (e target source : Nat) : Option HTree := do
